@@ -687,6 +687,53 @@ pub fn add_ladder(u: &mut Universe, k: usize) -> DomainName {
     dn("a.lad0.")
 }
 
+/// Add two sibling zones that host each other's only name server: `muta.` is served by `ns.mutb.` and `mutb.` by
+/// `ns.muta.`, the root sending glue for both.  Neither server's address can be learnt by asking the zone its name lives
+/// in first - only the parent's glue for an *out-of-zone* name-server name breaks the circle (RFC 1034 §4.2.1 glue in
+/// the wider sense; real sibling-glue delegations look like this).  Returns the two question names (`www.muta.`, `www.mutb.`).
+pub fn add_mutual(u: &mut Universe, dual_stack: bool) -> Vec<DomainName> {
+    let soa = |apex: &DomainName, serial: u32| FlatSoa {
+        mname: child_name(apex, &["mname"]),
+        rname: dn("hostmaster.invalid."),
+        serial,
+        refresh: 7200,
+        retry: 3600,
+        expire: 86400,
+        minimum: 300,
+    };
+    let apexes = [dn("muta."), dn("mutb.")];
+    let base = u.hosts.len();
+    for (i, apex) in apexes.iter().enumerate() {
+        u.hosts.push(UHost {
+            name: child_name(apex, &["ns"]),
+            v4: Some(Ipv4Addr::new(203, 0, 113, 90 + i as u8)),
+            v6: if dual_stack { Some(Ipv6Addr::new(0x2001, 0xdb8, 0x113, 0, 0, 0, 0, 90 + i as u16)) } else { None },
+        });
+    }
+    let mut out = Vec::new();
+    for (i, apex) in apexes.iter().enumerate() {
+        let own_host = base + i; // lives in this zone ...
+        let serving = base + (1 - i); // ... which is served by the other zone's host
+        let mut recs: Vec<URec> = u.addr_rrs(own_host).into_iter().map(|r| URec { owner: r.name.clone(), data: r.rtype_with_data.clone(), ttl: r.ttl }).collect();
+        let www = child_name(apex, &["www"]);
+        recs.push(URec { owner: www.clone(), data: a(Ipv4Addr::new(10, 223, i as u8, 1)), ttl: 300 });
+        let z = u.zones.len();
+        u.zones.push(UZone {
+            apex: apex.clone(),
+            soa: soa(apex, 9000 + i as u32),
+            recs,
+            ns_hosts: vec![serving],
+            glue: vec![true],
+            parent: Some(0),
+            children: Vec::new(),
+            depth: 1,
+        });
+        u.zones[0].children.push(z);
+        out.push(www);
+    }
+    out
+}
+
 /// Questions worth asking in a universe: existing names, missing names and types, NS hosts, apexes, aliases.
 pub fn questions(rng: &mut Rng, u: &Universe, n: usize) -> Vec<Question> {
     let names = u.all_names();
